@@ -227,7 +227,7 @@ def instances(tier):
         for w in ('prod', 'schur', 'matrix', 'gauss'):
             out.append(Inst(f'{w}[{l}:{f}]', h_mul, dict(l=l, f=f, what=w), timeout=1800, goal_timeout_ms=240000))
         out.append(Inst(f'linear[{l}:{f}]', h_linear, dict(l=l, f=f), timeout=900))
-        for pat in (('NIN', 'INNI') if tier == 'quick' else ('NIN', 'INNI', 'ININ', 'NIIN', 'NNI', 'IIN')):
+        for pat in (('NIN', 'INNI') if tier == 'quick' else ('NIN', 'INNI', 'ININ', 'NIIN', 'NNI', 'IIN') if (l, f) == (8, 4) else ()):
             out.append(Inst(f'prod_flags[{l}:{f},{pat}]', h_mul, dict(l=l, f=f, what='prod_flags', pattern=pat), timeout=1800, goal_timeout_ms=240000))
     for op in ('lt', 'ge', 'eq'):
         out.append(Inst(f'cmp.{op}[4:2]', h_cmp, dict(l=4, f=2, op=op), timeout=1800, max_paths=20000))
